@@ -49,3 +49,33 @@ REG.spec('pilot.py:Pilot.wait',
                       'implies(isinstance(state, list) and state, seq_eq(states, state))']},
     loop_exit = {'1': ['self._state in states', 'self._state in FINAL']},
     serves   = ['C15'], **_pilot_wait)
+
+
+# ------------------------------------------------------------------------------
+# TaskManager.wait_tasks: the threshold the polling loop compares task states
+# with.  A task stops being waited for when its state value reaches the threshold
+# (or it is final); "returns once every task reached an awaited state" therefore
+# needs the threshold to be the value of the EARLIEST awaited state - then a task
+# in any awaited state, or past it, is at or above the threshold.  The polling
+# loop itself (threads, sleeps) is exercised by the bounded wait scenarios.
+REG.spec('task_manager.py:TaskManager.wait_tasks#threshold',
+    fragment = 'threshold of the awaited states',
+    fragment_after  = "self._log.debug('wait for %s: %s', uids, states)",
+    fragment_before = 'start    = time.time()',
+    params   = dict(states=T.List(T.Str)),
+    locals   = dict(check_state_val=T.Int),
+    returns_local = 'check_state_val',
+    requires = ['forall(lambda i: implies(0 <= i < len(states), is_tstate(states[i])))'],
+    modifies = [],
+    raises   = {},
+    ensures  = [
+      ('a-task-in-any-awaited-state-is-at-or-above-the-threshold',
+       'forall(lambda i: implies(0 <= i < len(states), check_state_val <= tv(states[i])))'),
+      ('the-threshold-is-the-value-of-an-awaited-state-no-task-is-released-early',
+       'implies(len(states) > 0, exists(lambda i: 0 <= i < len(states) and check_state_val == tv(states[i]))) and '
+       'implies(len(states) == 0, check_state_val == tv(CANCELED))'),
+    ],
+    loops    = {'1': ['forall(lambda i: implies(0 <= i < i_state, check_state_val <= tv(states[i])))',
+                      'check_state_val == tv(CANCELED) or exists(lambda i: 0 <= i < i_state and check_state_val == tv(states[i]))',
+                      'check_state_val <= tv(CANCELED)']},
+    serves   = ['C15'])
